@@ -177,16 +177,9 @@ func (c spdxSniff) sniff(data []byte) Format {
 		}
 	}
 
-	// Removed the strings.Contains to check for the JSON version
-	//  JSON version should be detected above in SniffReader via json.NewDecoder()
-
-	for _, ver := range []string{"2.2", "2.3"} {
-		if strings.Contains(stringValue, fmt.Sprintf("'SPDX-%s'", ver)) ||
-			strings.Contains(stringValue, fmt.Sprintf("\"SPDX-%s\"", ver)) {
-			state.Version = ver
-			return state.Format()
-		}
-	}
+	// The JSON version is detected above in SniffReader via json.NewDecoder().
+	// A quoted version string on some other line says nothing about a
+	// tag-value document, so it is not combined with an SPDXVersion tag.
 
 	setSniffState(SPDXFORMAT, state)
 	return state.Format()
